@@ -21,8 +21,8 @@ FLOORS = {
               'trans:number->blank': 20, 'trans:0->FALSE': 3, 'trans:1->TRUE': 3,
               'trans:blank->number': 10, 'write_before_dependant_built': 20,
               'cfg:mem': 20, 'cfg:xlsx': 20, 'cfg:yml': 5, 'cfg:json': 5, 'cfg:pkl': 5,
-              'dependant_compares_after_write': 1000, 'failed_builds': 15, 'real_book_histories': 50,
-              'real_value_compares': 600},
+              'dependant_compares_after_write': 1000, 'failed_builds': 15, 'real_book_histories': 25,
+              'real_value_compares': 350},
     'thorough': {'histories': 3000, 'compares': 100000, 'trans:0->FALSE': 50, 'trans:1->TRUE': 50,
                  'trans:number->blank': 300, 'trans:blank->number': 200,
                  'write_before_dependant_built': 300, 'cfg:xlsx': 300, 'cfg:pkl': 100},
